@@ -861,6 +861,12 @@ _lyd_new_term(struct lyd_node *parent, const struct lys_module *module, const ch
     }
     LY_CHECK_ERR_RET(!schema, LOGERR(ctx, LY_EINVAL, "Term node \"%s\" not found.", name), LY_ENOTFOUND);
 
+    if ((schema->flags & LYS_KEY) && parent && !lyd_find_sibling_val(lyd_child(parent), schema, NULL, 0, NULL)) {
+        /* the list instance is hashed (and sorted) by its keys, a second instance of a key would invalidate that */
+        LOGERR(ctx, LY_EEXIST, "List key \"%s\" instance already exists.", name);
+        return LY_EEXIST;
+    }
+
     LY_CHECK_RET(lyd_create_term(schema, value, value_len, 0, store_only, NULL, format, NULL, LYD_HINT_DATA, NULL, &ret));
     if (ext) {
         ret->flags |= LYD_EXT;
